@@ -142,7 +142,7 @@ def run(P, rep, tier):
                 continue
             lf = last_field(strip(e[2]))
             typed = any(x[0] == 'm' and x[1] == REFRESH for c in conds for x in subexprs(c))
-            rep.ob('C19.COUNTER', 'raise:%s@%s' % (lf.split('.')[1], ev.get('l')), typed, f.loc(ev),
+            rep.ob('C19.COUNTER', 'raise:%s@%s/%s' % (lf.split('.')[1], f.name, pstr(on_len[0])[:40]), typed, f.loc(ev),
                    ('%s raised under %s, selected by intra_refresh_type' % (lf.split('.')[1], pstr(on_len[0])[:50])) if typed else
                    ('%s is raised for every picture under %s without consulting intra_refresh_type: with IDR refresh requested the pictures are coded as intra-only frames, not as key frames' % (lf.split('.')[1], pstr(on_len[0])[:50])))
     # the period the protocol compares with is the configured one
@@ -159,7 +159,7 @@ def run(P, rep, tier):
                 auto = r[0] == 'c' and callee_name(r) == 'compute_default_intra_period' and any(
                     c is not None and any(x[0] == 'm' and x[1] == CFG for x in subexprs(c)) and '-2' in pstr(strip(c)) for k, c, l in f.ctl_chain(ev))
                 ok = from_cfg or auto
-                rep.ob('C19.COUNTER', 'period@%s:%s' % (f.name, ev.get('l')), ok, f.loc(ev),
+                rep.ob('C19.COUNTER', 'period@%s/%s' % (f.name, pstr(r)[:40]), ok, f.loc(ev),
                        ('period taken from the configuration' if from_cfg else 'period -2 (auto) replaced by the documented default') if ok else
                        ('the configured period is replaced by %s under %s: the refresh distance is no longer the configured one (a period of -1 stops meaning "first picture only")' %
                         (pstr(r)[:60], ' && '.join(pstr(strip(c))[:80] for k, c, l in f.ctl_chain(ev) if c is not None)[:160])))
